@@ -31,6 +31,8 @@ func c11Once(t *testing.T, s *sim.Scn, k int, o *sim.Outcome) (fired bool) {
 		if !r.start(-1, "C11") {
 			return
 		}
+		// the block size limit the execution layer reports (a sequencing layer is free to ignore it)
+		n.Exec.MaxBytes = uint64(s.Cfg["maxbytes"])
 		anyCrash := false
 		cut := ""
 		for i, op := range s.Ops {
@@ -214,6 +216,9 @@ func c11Run(t *testing.T, s *sim.Scn) *sim.Outcome {
 
 func c11Gen(r *rand.Rand, tier string) *sim.Scn {
 	s := &sim.Scn{Cfg: map[string]int64{"queue": 1 + r.Int64N(8)}}
+	if r.IntN(4) == 0 {
+		s.Cfg["maxbytes"] = []int64{1, 12, 30}[r.IntN(3)]
+	}
 	n := 4 + r.IntN(20)
 	if tier == "thorough" {
 		n = 4 + r.IntN(50)
